@@ -11,9 +11,11 @@ from .model import expr as X
 from .model import busmodel
 
 KNOBS = ["blank", "indent", "trailing", "linecomment", "eolcomment", "blockcomment", "opspace", "commaspace", "bracketspace",
-         "assignspace", "case_mnemonic", "case_suffix", "case_index", "case_hex", "include"]
+         "assignspace", "case_mnemonic", "case_suffix", "case_index", "case_hex", "include", "eof"]
 
-COMMENT_WORDS = ["todo", "x = 1", "lda #0", "'quoted'", "/* not a block */", "{ }", ";;", "a:b", ".db 1", "*=0x8000", "(", "end"]
+COMMENT_WORDS = ["todo", "x = 1", "lda #0", "'quoted'", "/* not a block */", "{ }", ";;", "a:b", ".db 1", "*=0x8000", "(", "end",
+                 # characters that some line-splitting routines (not the assembler's grammar) take for line ends
+                 "page\x0cbreak", "v\x0bt", "ls\u2028ps\u2029", "nel\x85", "fs\x1cgs\x1drs\x1e", "caf\u00e9"]
 
 
 class Layout:
@@ -274,6 +276,8 @@ class Renderer:
             if st is not None:
                 self.positions.append((fname, len(text), st))
             text.append(ln)
+        if rng is not None and text and lay.on("eof", 0.3):
+            return "\n".join(text)  # the last line ends with the file
         return "\n".join(text) + "\n"
 
 
